@@ -5,9 +5,16 @@ import json, os, re, subprocess, errno as _errno
 from concurrent.futures import ThreadPoolExecutor
 from vlib import common as c, drv
 
-ERRNO = {"ENOENT": 2, "EACCES": 13, "E2BIG": 7, "ENOEXEC": 8, "ENOMEM": 12, "ETXTBSY": 26}
-DSMAX = {"default": 2047, "min": 255}
-LOGMAX = {"default": 16383, "min": 255}
+class _Errno(dict):
+    def __missing__(self, k):
+        if k.startswith("E") and k[1:].isdigit():
+            return int(k[1:])
+        raise KeyError(k)
+
+
+ERRNO = _Errno({"ENOENT": 2, "EACCES": 13, "E2BIG": 7, "ENOEXEC": 8, "ENOMEM": 12, "ETXTBSY": 26})
+DSMAX = {"default": 2047, "min": 255, "max": 1048575}
+LOGMAX = {"default": 16383, "min": 255, "max": 1048575}
 FMT = {"static": b"static text", "cmdfile": b"%{filename}|%{cmdline}|end", "cmd": b"%{cmdline}", "empty": b"",
        "unknown": b"a%{nosuch}b", "tid": b"t=%{tid} n=%{snoopy_threads}"}
 CHAIN = {"pass": b"only_uid:0", "drop": b"exclude_uid:0", "bogus": b"nosuchfilter:1", "pass;pass": b"only_uid:0;only_root",
@@ -121,7 +128,8 @@ def call_for(call, ctx, real):
     p = {"p_norm": ctx.helper, "p_empty": b"", "p_long": b"/" + b"./" * 1900 + ctx.helper.lstrip(b"/"), "p_8bit": ctx.link8}[call["path"]]
     big = 100000 if real else (1 << 20)
     argv = {"a_null": None, "a_empty": [], "a_emptystr": [b""], "a_one": [b"prog"], "a_two": [b"a b", b"\x01\xff x", b""],
-            "a_huge": [b"prog", _big(big)], "a_many": _MANY}[call["argv"]]
+            "a_huge": [b"prog", _big(big)], "a_many": _MANY, "a_100k": [b"prog", _big(100000)], "a_bytes": [bytes(range(1, 128)), bytes(range(128, 256)) + b" end"],
+            "a_4095": [_big(4095)], "a_4096": [_big(4096)], "a_4097": [_big(4097)]}[call["argv"]]
     envp = {"e_null": None, "e_empty": [], "e_one": [b"A=1"], "e_many": _EMANY,
             "e_none": None}[call["envp"]]
     return call["kind"], p, argv, envp
@@ -246,6 +254,8 @@ def compare_sinks(observed, expect, file_rec, path, argv, info):
         if not recs:
             probs.append("no record at %s when the real exec started" % sname)
             continue
+        if r["frame"] == "line" and not errlog:
+            recs = [b"".join(recs)]          # the message itself may contain newline bytes: the whole delta is the one record
         main = recs[-1] if errlog else recs[0]
         extra = recs[:-1] if errlog else recs[1:]
         if extra and not errlog:
